@@ -2,7 +2,7 @@
     drives the real meta.IfFeature.Evaluate / parser.LoadModuleFromStringWithOptions and writes
     what it observed; everything below is evaluated by Coq. *)
 From Coq Require Import ZArith List Bool Arith Strings.Byte.
-From YV Require Import Base.Verdict Feature.IfFeature.
+From YV Require Import Base.Verdict Feature.IfFeature Feature.Guard.
 Import ListNotations.
 
 (** result codes: 0 false, 1 true, 2 error, 3 panic/timeout *)
@@ -42,7 +42,7 @@ Fixpoint subsets (l : list (list byte)) : list (list (list byte)) :=
   | x :: tl => let r := subsets tl in r ++ map (cons x) r
   end.
 (** what the code's map of enabled features answers for a key *)
-Definition env_of (enabled : list (list byte)) : env := fun id => existsb (bytes_eqb id) enabled.
+Definition env_of (enabled : list (list byte)) : env := Guard.env_of enabled.
 Definition envs (feats : list (list byte)) : list env := map env_of (subsets feats).
 (** specification side: an identifier-ref [prefix:]name denotes the feature called name *)
 Definition spec_local (id : list byte) : list byte :=
@@ -103,6 +103,66 @@ Definition kf_touch (text : list byte) (es : list env) : bool :=
   touches text &&
   existsb (fun e => match spec_tokens (spec_lex text) e with ROk _ => true | _ => false end) es.
 
+(** ** part (ii): guard presence.  Specification oracle: each guard text is read by the
+    independent RFC reader [spec_text] against the features the configuration turns on *)
+Definition guard_env (cfg : fconfig) (declared : list name) : env :=
+  fun id => is_enabled cfg declared (spec_local id).
+Definition guard_vals (cfg : fconfig) (declared : list name) (ifs : list text) : list result :=
+  map (fun t => spec_text t (guard_env cfg declared)) ifs.
+Definition is_err (r : result) : bool := match r with RErr | ROutOfFuel => true | _ => false end.
+Definition is_true (r : result) : bool := match r with ROk true => true | _ => false end.
+Definition is_false (r : result) : bool := match r with ROk false => true | _ => false end.
+
+Definition stmt_guards (s : stmt) : list (list text) :=
+  match s with
+  | SData ifs | SCase ifs | SUses ifs | SAugment ifs => [ifs]
+  | SRefines rs => rs
+  end.
+
+(** expected observation: None = the load must fail (some expression is malformed) *)
+Definition spec_load (cfg : fconfig) (declared : list name) (ss : list stmt) : option (list (list bool)) :=
+  if existsb (fun s => existsb (fun ifs => existsb is_err (guard_vals cfg declared ifs)) (stmt_guards s)) ss
+  then None
+  else Some (map (fun s => map (fun ifs => forallb is_true (guard_vals cfg declared ifs)) (stmt_guards s)) ss).
+
+(** region of known finding 2: every malformed expression stands after one that is off on the
+    same statement (so it is never evaluated), and there is at least one *)
+Fixpoint shadowed (vals : list result) (seen_false : bool) : bool :=
+  match vals with
+  | [] => true
+  | v :: tl => if is_err v then seen_false && shadowed tl seen_false
+               else shadowed tl (seen_false || is_false v)
+  end.
+Definition kf_lazy (cfg : fconfig) (declared : list name) (ss : list stmt) : bool :=
+  existsb (fun s => existsb (fun ifs => existsb is_err (guard_vals cfg declared ifs)) (stmt_guards s)) ss
+  && forallb (fun s => forallb (fun ifs => shadowed (guard_vals cfg declared ifs) false) (stmt_guards s)) ss.
+
+Fixpoint blist_eqb (a b : list bool) : bool :=
+  match a, b with
+  | [], [] => true
+  | x :: a', y :: b' => Bool.eqb x y && blist_eqb a' b'
+  | _, _ => false
+  end.
+Fixpoint bll_eqb (a b : list (list bool)) : bool :=
+  match a, b with
+  | [], [] => true
+  | x :: a', y :: b' => blist_eqb x y && bll_eqb a' b'
+  | _, _ => false
+  end.
+
+(** observed: code 0 loaded (with flags), 1 load error, 2 panic / inconsistent tree *)
+Definition load_eqb (l : load) (code : Z) (obs : list (list bool)) : bool :=
+  match l with
+  | Loaded os => Z.eqb code 0 && bll_eqb os obs
+  | LoadErr => Z.eqb code 1
+  | LoadFuel => false
+  end.
+Definition spec_load_ok (o : option (list (list bool))) (code : Z) (obs : list (list bool)) : bool :=
+  match o with
+  | Some os => Z.eqb code 0 && bll_eqb os obs
+  | None => Z.eqb code 1
+  end.
+
 Inductive case :=
 | CExpr (c : cst) (w0 w1 text : list byte) (feats : list (list byte)) (obs : list Z)
     (* a generated grammatical written expression; obs: one code per assignment *)
@@ -110,8 +170,10 @@ Inductive case :=
     (* every sequence of n tokens over [alphabet], single spaces, x 8 assignments, packed *)
 | CTokList (seqs : list Z) (obs : list Z)
     (* listed token sequences (numbers, see seq_of), single spaces, x 8 assignments, packed *)
-| CText (text : list byte) (feats : list (list byte)) (obs : list Z).
+| CText (text : list byte) (feats : list (list byte)) (obs : list Z)
     (* arbitrary bytes; one code per assignment *)
+| CGuard (cfg : fconfig) (declared : list name) (ss : list stmt) (code : Z) (obs : list (list bool)).
+    (* a module loaded with Options.Features = cfg; per statement: present / refine applied *)
 
 Definition classify (c : case) : verdict :=
   match c with
@@ -137,4 +199,8 @@ Definition classify (c : case) : verdict :=
       classify_gen (zlist_eqb (model_codes text es) obs)
                    (zlist_eqb (spec_text_codes text (spec_envs feats)) obs)
                    (if kf_touch text es then Some 1 else None)
+  | CGuard cfg declared ss code obs =>
+      classify_gen (load_eqb (compile cfg declared ss) code obs)
+                   (spec_load_ok (spec_load cfg declared ss) code obs)
+                   (if kf_lazy cfg declared ss then Some 2 else None)
   end.
